@@ -1,8 +1,56 @@
+(* C07 - Pool.run yields exactly one result per input under every schedule and death.
+   Model: Pool/Model.v (hand-written from pyworkers/pool.py, tied to it by the
+   differential harness).  Quantified over: every configuration [c] (number of
+   workers, target f, extra pending, refusing enqueue_fn, idle-worker choice),
+   every set of already-closed workers, every environment script. *)
 From PW Require Import Pool.Model Pool.Run Pool.Inv.
+From Coq Require Import Permutation.
 Open Scope Z_scope.
+
+(* With retry on, a normal return holds exactly one result per input. *)
+Theorem C07_exactly_one_result_per_input :
+  forall c pre_closed pre inputs script r,
+    retry c = true ->
+    run c pre_closed pre inputs script = Return r ->
+    Permutation r (map (f c) inputs).
+Proof. exact run_return_exactly_once. Qed.
+
+(* Never an internal error (the IndexError of the pinned tree is `Internal EIndex`). *)
+Theorem C07_no_internal_error :
+  forall c pre_closed pre inputs script,
+    run c pre_closed pre inputs script <> Internal EIndex.
+Proof. exact run_no_internal_error. Qed.
+
+Theorem C07_oracle_mismatch_only_in_strict_mode :
+  forall c pre_closed pre inputs script,
+    strict c = false -> run c pre_closed pre inputs script <> Internal EOracle.
+Proof. exact run_oracle_only_when_strict. Qed.
+
+(* Known findings, as theorems about the faithful model (witnesses replayed on the code by the harness). *)
+Definition cfg0 (nw : nat) (refs : list (nat * Z)) : cfg :=
+  mkCfg nw sq true 0 true (refuse_of refs) (fun _ => 0%nat) false.
+
+Theorem C07_refuted_no_live_worker_returns_None :
+  exists c pc inputs, inputs <> [] /\ run c pc [] inputs [] = ReturnNone.
+Proof. exists (cfg0 1 []), (fun _ => true), [1]. split; [discriminate|]. vm_compute. reflexivity. Qed.
+
+Theorem C07_refuted_refusing_enqueue_fn_livelocks :
+  exists c inputs script, run c (fun _ => false) [] inputs script = Livelock.
+Proof.
+  exists (mkCfg 2 sq true 1 true (refuse_of [(1%nat, 3); (0%nat, 4); (1%nat, 2)]) (fun _ => 1%nat) false),
+         [1; 2; 3; 4; 5], [Exit 0%nat; Poll [0%nat]].
+  vm_compute. reflexivity.
+Qed.
+
+(* Non-vacuity: a schedule with a death (the R4 schedule) on which the hypotheses hold. *)
 Example C07_example_r4_schedule :
   run (mkCfg 2 sq true 1 true (fun _ _ => false) (fun _ => 0%nat) false) (fun _ => false) []
       [1;2;3;4;5] [Ans 1%nat; Ans 1%nat; Exit 1%nat; Poll [1%nat]; Ans 0%nat; Poll [0%nat]; Ans 0%nat; Poll [0%nat]; Ans 0%nat; Poll [0%nat]; Ans 0%nat; Poll [0%nat]]
   = Return [4; 16; 1; 9; 25].
 Proof. vm_compute. reflexivity. Qed.
-Print Assumptions C07_example_r4_schedule.
+
+Print Assumptions C07_exactly_one_result_per_input.
+Print Assumptions C07_no_internal_error.
+Print Assumptions C07_oracle_mismatch_only_in_strict_mode.
+Print Assumptions C07_refuted_no_live_worker_returns_None.
+Print Assumptions C07_refuted_refusing_enqueue_fn_livelocks.
